@@ -128,7 +128,7 @@ func (v *VM) Func(fnc Value, xRets int, params ...Value) (rets []Value, err erro
 		globals:  v.globals,
 		stdout:   v.stdout,
 		imported: v.imported,
-		stack:    append(params, fnc),
+		stack:    append(append(make([]Value, 0, len(params)+1), params...), fnc), // never the caller's array: params with spare capacity would be overwritten, and so would results handed out earlier
 		frame: frame{Codes: []instruction{{
 			Code: codeCall,
 			A:    reg(len(params)),
